@@ -48,6 +48,7 @@ type Run struct {
 	known       []string
 	maxSamples  int
 	replayN     int
+	seenViol    map[string]bool
 }
 
 // New starts a run.
@@ -106,6 +107,14 @@ func (r *Run) Set(name string, v any) {
 // Violation records a violation with replay material and prints the VIOLATION line. files: name -> content.
 func (r *Run) Violation(what string, files map[string]string) {
 	r.mu.Lock()
+	if r.seenViol == nil {
+		r.seenViol = map[string]bool{}
+	}
+	if r.seenViol[what] {
+		r.mu.Unlock()
+		return
+	}
+	r.seenViol[what] = true
 	r.replayN++
 	n := r.replayN
 	r.mu.Unlock()
